@@ -67,6 +67,7 @@ def run(ctx):
         "length for the list forms is outside the property",
         "values are compared as two's-complement bit patterns of their width (16-bit limbs)",
         "n beyond +-2^30 is logged clamped (only min(max(n,0),Len) matters), the real 64-bit argument beside it",
+        "the caller owns what it was given: every returned slice (list forms, Marshal bytes, block lists) is overwritten by the harness (elements flipped, capacity refilled through s[:0]) once it has been rendered; equal values are encoded / listed repeatedly in one process with that in between, later calls are judged as usual",
         "late traces (about half): every returned list and every caller slice is kept as returned and rendered "
         "when the trace is over; a call that does not return within 40 s is logged as a `hang` event and rejected",
         "concurrent read rounds (also as the first use of the package in 6 fresh processes): values nobody "
